@@ -230,7 +230,7 @@ Qed.
 (* ---- from a stalled sink to the monitor's "root" ------------------------------- *)
 Record Ctx (st : state) (tr : list label) : Prop := {
   cG : Good st; cD : D1 st; cK : KWild st; cW : WSI st; cT : TY st; cN : ~ some_progress st;
-  cR : forall x c, nth_error (subs st) x = Some c -> unread_unclosed c -> o_root tr x = true }.
+  cR : forall x c, nth_error (subs st) x = Some c -> unread_unclosed c -> styps c <> Some [] -> o_root tr x = true }.
 
 Lemma o_typed_state : forall st x c tys ty, nth_error (subs st) x = Some c -> styps c = Some tys -> In ty tys ->
   o_typed_with (ocfg_of_state st) x ty = true.
@@ -254,17 +254,20 @@ Lemma typed_witness : forall st tr n nd x, Ctx st tr -> nth_error (nodes st) n =
             o_typed_with (ocfg_of_state st) x (nty nd) = true.
 Proof.
   intros st tr n nd x C En Hin F. destruct (typed_root st n nd x (cG _ _ C) (cD _ _ C) (cN _ _ C) En Hin F) as [c [Ec U]].
-  exists c. split; [exact Ec|]. split; [exact U|]. split; [exact (cR _ _ C x c Ec U)|].
   destruct (sink_typed st n nd x (gL st (cG _ _ C)) (gI st (cG _ _ C)) (cT _ _ C) En Hin) as [c' [tys [Ec' [Et Hty]]]].
-  rewrite Ec in Ec'. inversion Ec'; subst c'. eapply o_typed_state; eassumption.
+  rewrite Ec in Ec'. inversion Ec'; subst c'.
+  assert (NR : styps c <> Some []) by (rewrite Et; intros X; inversion X; subst tys; destruct Hty).
+  exists c. split; [exact Ec|]. split; [exact U|]. split; [exact (cR _ _ C x c Ec U NR)|].
+  eapply o_typed_state; eassumption.
 Qed.
 
 Lemma wild_witness : forall st tr x, Ctx st tr -> In x (wsinks (wild st)) -> full_open st x ->
   exists c, nth_error (subs st) x = Some c /\ unread_unclosed c /\ o_root tr x = true /\ o_wild (ocfg_of_state st) x = true.
 Proof.
   intros st tr x C Hin F. destruct (wild_root st x (cG _ _ C) (cW _ _ C) (cN _ _ C) Hin F) as [c [Ec U]].
-  exists c. split; [exact Ec|]. split; [exact U|]. split; [exact (cR _ _ C x c Ec U)|].
   destruct (iW1 st (gI st (cG _ _ C)) x Hin) as [c' [Ec' Hw]]. rewrite Ec in Ec'. inversion Ec'; subst c'.
+  assert (NR : styps c <> Some []) by (rewrite Hw; discriminate).
+  exists c. split; [exact Ec|]. split; [exact U|]. split; [exact (cR _ _ C x c Ec U NR)|].
   eapply o_wild_state; eassumption.
 Qed.
 
@@ -433,7 +436,7 @@ Proof.
     + destruct (wild_wait_witness st tr C) as [x [c [Ec [U [R [Wd Hin]]]]]]; [right; exact NZ|].
       eapply (wild_legit_intro st tr s0 x c); [exact Ec| |exact R|exact Wd].
       intros ->. destruct (cW _ _ C) as [W1 _]. destruct (W1 s0 Hin) as [c' [Ec' [[X|X] _]]]; rewrite E0 in Ec'; inversion Ec'; subst c'; congruence.
-  - exfalso. apply (cN _ _ C). exists (TSub s0). eapply vis_progress; [cbn; unfold step_sub; rewrite E0, Ep; destruct (styps c0); reflexivity|reflexivity].
+  - exfalso. apply (cN _ _ C). exists (TSub s0). eapply sret_progress; eassumption.
 Qed.
 
 Lemma legit_close : forall st tr s0 c0, Ctx st tr -> nth_error (subs st) s0 = Some c0 ->
